@@ -216,7 +216,51 @@ func c16changeSSA(c *core.Ctx, r *core.Report) {
 	}
 }
 
-// c16loopSSA: R16.index (producer), R16.record and R16.unbounded on the SSA of AnalyzeFunction.
+// accumulates: in the function of `call`, a bool phi merges the constant true
+// with the boolean result #idx of the call (a || b, or if b { a = true }).
+func accumulates(call *ssa.Call, idx int) bool {
+	var repeated ssa.Value
+	if call.Referrers() != nil {
+		for _, ref := range *call.Referrers() {
+			if ex, ok := ref.(*ssa.Extract); ok && ex.Index == idx {
+				repeated = ex
+			}
+		}
+	}
+	if repeated == nil {
+		return false
+	}
+	for _, b := range call.Parent().Blocks {
+		for _, ins := range b.Instrs {
+			phi, ok := ins.(*ssa.Phi)
+			if !ok {
+				continue
+			}
+			hasTrue, hasRep := false, false
+			for i, e := range phi.Edges {
+				if k, isC := e.(*ssa.Const); isC && k.Value != nil && k.Value.Kind() == constant.Bool && constant.BoolVal(k.Value) {
+					hasTrue = true
+					p := b.Preds[i]
+					for _, pp := range append([]*ssa.BasicBlock{p}, p.Preds...) {
+						if iff, ok := pp.Instrs[len(pp.Instrs)-1].(*ssa.If); ok && iff.Cond == repeated {
+							hasRep = true
+						}
+					}
+				}
+				if e == repeated {
+					hasRep = true
+				}
+			}
+			if hasTrue && hasRep {
+				return true
+			}
+		}
+	}
+	return false
+}
+
+// c16loopSSA: R16.index (producer), R16.record, R16.unbounded and R16.worklist on the SSA of AnalyzeFunction
+// (helpers it delegates the per-block work to are inlined).
 func c16loopSSA(c *core.Ctx, r *core.Report) {
 	fn := c.Func("analysis/defers", "AnalyzeFunction")
 	if fn == nil {
@@ -224,22 +268,26 @@ func c16loopSSA(c *core.Ctx, r *core.Report) {
 		return
 	}
 	r.Analysed("analysis/defers.AnalyzeFunction")
-	var transfer *ssa.Call
-	for _, b := range fn.Blocks {
-		for _, ins := range b.Instrs {
-			if call, ok := ins.(*ssa.Call); ok {
-				if sc := call.Call.StaticCallee(); sc != nil && sc.Name() == "dataflowTransfer" {
-					transfer = call
-				}
-			}
+	var tii *core.InlinedInstr
+	for _, ii := range core.InlinedInstrs(c, fn, 2, func(ins ssa.Instruction) bool {
+		call, ok := ins.(*ssa.Call)
+		if !ok {
+			return false
 		}
+		sc := call.Call.StaticCallee()
+		return sc != nil && sc.Name() == "dataflowTransfer"
+	}) {
+		x := ii
+		tii = &x
 	}
-	if transfer == nil || len(transfer.Call.Args) != 4 {
-		r.Fail("infra.anchor-unresolved", "R16.index|AnalyzeFunction|dataflowTransfer-call", c.Pos(fn.Pos()), "call not found")
+	if tii == nil || len(tii.Ins.(*ssa.Call).Call.Args) != 4 {
+		r.Fail("infra.anchor-unresolved", "R16.index|AnalyzeFunction|dataflowTransfer-call", c.Pos(fn.Pos()), "call not found in AnalyzeFunction or the helpers it calls")
 		return
 	}
-	a0 := core.NewReadPaths(c, transfer.Call.Args[0])
-	a2 := core.NewReadPaths(c, transfer.Call.Args[2])
+	transfer := tii.Ins.(*ssa.Call)
+	tfn := transfer.Parent()
+	a0 := tii.Slice(transfer.Call.Args[0])
+	a2 := tii.Slice(transfer.Call.Args[2])
 	idx := transfer.Call.Args[1]
 	isRange := false
 	if phi, ok := idx.(*ssa.Phi); ok && phi.Comment == "rangeindex" {
@@ -250,85 +298,148 @@ func c16loopSSA(c *core.Ctx, r *core.Report) {
 			isRange = true
 		}
 	}
-	// the ranged collection of that index is Instrs: the loop bound len(...) reads path Instrs
 	overInstrs := false
-	for _, b := range fn.Blocks {
+	for _, b := range tfn.Blocks {
 		for _, ins := range b.Instrs {
 			bo, ok := ins.(*ssa.BinOp)
 			if !ok || bo.Op != token.LSS || bo.X != idx {
 				continue
 			}
-			if core.NewReadPaths(c, bo.Y).HasSuffix("Instrs") {
+			if tii.Slice(bo.Y).HasSuffix("Instrs") {
 				overInstrs = true
 			}
 		}
 	}
 	okIdx := a0.HasSuffix("Index") && isRange && overInstrs && a2.HasSuffix("Instrs")
 	r.Check(okIdx, "R16.index", "analysis/defers.AnalyzeFunction|producer", c.Pos(transfer.Pos()), "the transfer function receives (block.Index, range index over block.Instrs, that instruction)", "the indices pushed on defer stacks are not (BasicBlock.Index, position in Instrs) of the instruction transferred: the consumer resolves them to the wrong instruction")
-	// record-before-reset: the set recorded for a RunDefers is not the result of this iteration's transfer
+	// record-before-reset
 	okRec, nRec := true, 0
-	for _, b := range fn.Blocks {
-		for _, ins := range b.Instrs {
-			mu, ok := ins.(*ssa.MapUpdate)
-			if !ok {
-				continue
-			}
-			m, ok := types.Unalias(mu.Map.Type()).Underlying().(*types.Map)
-			if !ok || core.SSATypeName(m.Key()) != "RunDefers" {
-				continue
-			}
-			nRec++
-			if ex, ok := mu.Value.(*ssa.Extract); ok && ex.Tuple == ssa.Value(transfer) {
-				okRec = false
-			}
+	for _, ii := range core.InlinedInstrs(c, fn, 2, func(ins ssa.Instruction) bool {
+		mu, ok := ins.(*ssa.MapUpdate)
+		if !ok {
+			return false
+		}
+		m, ok := types.Unalias(mu.Map.Type()).Underlying().(*types.Map)
+		return ok && core.SSATypeName(m.Key()) == "RunDefers"
+	}) {
+		mu := ii.Ins.(*ssa.MapUpdate)
+		nRec++
+		if ex, ok := mu.Value.(*ssa.Extract); ok && ex.Tuple == ssa.Value(transfer) {
+			okRec = false
 		}
 	}
 	r.Check(okRec && nRec > 0, "R16.record", "analysis/defers.AnalyzeFunction|record-before-reset", c.Pos(transfer.Pos()), "the stack set at a RunDefers is recorded before the transfer resets it", "the set recorded for a RunDefers is taken after the reset: every exit reports the empty stack only")
-	// accumulate: some bool phi merges the constant true with the transfer's `repeated` result (a || b, or if b { a = true })
-	var repeated ssa.Value
-	if transfer.Referrers() != nil {
-		for _, ref := range *transfer.Referrers() {
-			if ex, ok := ref.(*ssa.Extract); ok && ex.Index == 1 {
-				repeated = ex
-			}
+	// accumulate along the chain of calls from the transfer up to AnalyzeFunction
+	okUnb := accumulates(transfer, 1)
+	for _, call := range tii.CallChain() {
+		c2, isCall := call.(*ssa.Call)
+		if !isCall {
+			okUnb = false
+			continue
 		}
-	}
-	okUnb := false
-	if repeated != nil {
-		for _, b := range fn.Blocks {
-			for _, ins := range b.Instrs {
-				phi, ok := ins.(*ssa.Phi)
-				if !ok {
-					continue
-				}
-				hasTrue, hasRep, hasPrev := false, false, false
-				for i, e := range phi.Edges {
-					if k, isC := e.(*ssa.Const); isC && k.Value != nil && k.Value.Kind() == constant.Bool && constant.BoolVal(k.Value) {
-						hasTrue = true
-						// `if repeated { a = true }`: the true edge comes from the branch on repeated
-						p := b.Preds[i]
-						for _, pp := range p.Preds {
-							if iff, ok := pp.Instrs[len(pp.Instrs)-1].(*ssa.If); ok && iff.Cond == repeated {
-								hasRep = true
-							}
-						}
-						if iff, ok := p.Instrs[len(p.Instrs)-1].(*ssa.If); ok && iff.Cond == repeated {
-							hasRep = true
-						}
-					}
-					if e == repeated {
-						hasRep = true
-					}
-					if _, isPhi := e.(*ssa.Phi); isPhi {
-						hasPrev = true
-					}
-				}
-				if hasTrue && hasRep {
-					okUnb = true
-				}
-				_ = hasPrev
-			}
-		}
+		n := c2.Call.Signature().Results().Len()
+		okUnb = okUnb && n > 0 && accumulates(c2, n-1)
 	}
 	r.Check(okUnb, "R16.unbounded", "analysis/defers.AnalyzeFunction|accumulate-repeated", c.Pos(transfer.Pos()), "the unbounded verdict accumulates every repeated flag", "the repeated flag is overwritten instead of accumulated: a function with a defer in a loop can be reported bounded")
+	c16worklist(c, r, fn)
+}
+
+// c16worklist (R16.worklist): the change flags are the worklist. The flag of
+// the block being processed is cleared BEFORE its output is merged into its
+// successors: a block that is its own successor gets its flag set again by the
+// merge and must be re-processed. On the SSA CFG of AnalyzeFunction: the store
+// clearing a flag (constant false) is not reachable from a store setting a
+// successor's flag within one iteration of the loop over blocks.
+func c16worklist(c *core.Ctx, r *core.Report, fn *ssa.Function) {
+	isFlagStore := func(st *ssa.Store) bool {
+		ia, ok := st.Addr.(*ssa.IndexAddr)
+		if !ok {
+			return false
+		}
+		sl, ok := types.Unalias(ia.X.Type()).Underlying().(*types.Slice)
+		if !ok {
+			return false
+		}
+		b, ok := types.Unalias(sl.Elem()).Underlying().(*types.Basic)
+		return ok && b.Kind() == types.Bool
+	}
+	var clears, sets []*ssa.Store
+	for _, b := range fn.Blocks {
+		for _, ins := range b.Instrs {
+			st, ok := ins.(*ssa.Store)
+			if !ok || !isFlagStore(st) {
+				continue
+			}
+			if k, isC := st.Val.(*ssa.Const); isC && k.Value != nil && k.Value.Kind() == constant.Bool && !constant.BoolVal(k.Value) {
+				// the clear inside the processing loop (not the initialisation loop): it is in a loop that contains a set
+				clears = append(clears, st)
+			} else if _, isC := st.Val.(*ssa.Const); !isC {
+				sets = append(sets, st)
+			}
+		}
+	}
+	// keep the clears that sit in a loop containing a set
+	loops := core.Loops(fn)
+	var procClears []*ssa.Store
+	var iterLoop *core.Loop
+	for _, cl := range clears {
+		for _, l := range loops {
+			if !l.Body[cl.Block()] {
+				continue
+			}
+			for _, s := range sets {
+				if l.Body[s.Block()] {
+					if iterLoop == nil || len(l.Body) < len(iterLoop.Body) {
+						iterLoop = l
+					}
+					procClears = append(procClears, cl)
+				}
+			}
+		}
+	}
+	if len(procClears) == 0 || len(sets) == 0 || iterLoop == nil {
+		r.Fail("infra.anchor-unresolved", "R16.worklist|AnalyzeFunction|change-flags", c.Pos(fn.Pos()), "no change-flag clear/set pair found in the block-processing loop")
+		return
+	}
+	// within one iteration: reachability without taking the back edges of the innermost loop containing both
+	reach := func(from, to *ssa.BasicBlock) bool {
+		seen := map[*ssa.BasicBlock]bool{}
+		st := []*ssa.BasicBlock{from}
+		for len(st) > 0 {
+			x := st[len(st)-1]
+			st = st[:len(st)-1]
+			if seen[x] {
+				continue
+			}
+			seen[x] = true
+			if x == to && x != from {
+				return true
+			}
+			for _, s := range x.Succs {
+				if s == iterLoop.Header {
+					continue // next iteration
+				}
+				st = append(st, s)
+			}
+		}
+		return false
+	}
+	bad := false
+	for _, cl := range procClears {
+		for _, s := range sets {
+			if !iterLoop.Body[s.Block()] {
+				continue
+			}
+			if s.Block() == cl.Block() {
+				if core.InstrIndex(s) < core.InstrIndex(cl) {
+					bad = true
+				}
+			} else if reach(s.Block(), cl.Block()) {
+				bad = true
+			}
+		}
+	}
+	r.Check(!bad, "R16.worklist", "analysis/defers.AnalyzeFunction|clear-before-merge", c.Pos(procClears[0].Pos()),
+		"the processed block's change flag is cleared before its output is merged into its successors",
+		"the change flag of the block being processed is cleared AFTER the merge into its successors: for a block that is its own successor the flag set by the merge is lost, the block is not re-processed, a defer in a single-block loop is never seen twice and the function is reported bounded with one stack")
 }
